@@ -18,8 +18,9 @@ func init() { Register(&PropDef{ID: "C16", Run: runC16}) }
 
 // objSink records the objects delivered below a format codec.
 type objSink struct {
-	Got []interface{}
-	Ex  []error
+	Got     []interface{}
+	Ex      []error
+	Swallow bool // consume exceptions: the channel stays open after a rejected frame
 }
 
 //go:norace
@@ -31,6 +32,9 @@ func (s *objSink) addEx(err error) { s.Ex = append(s.Ex, err) }
 func (s *objSink) HandleRead(ctx netty.InboundContext, msg netty.Message) { s.add(msg) }
 func (s *objSink) HandleException(ctx netty.ExceptionContext, ex netty.Exception) {
 	s.addEx(ex)
+	if s.Swallow {
+		return
+	}
 	ctx.HandleException(ex)
 }
 
@@ -132,7 +136,9 @@ func runC16(e *Env) {
 	if variable {
 		dec.Conn.Frag = simnet.FragWhole
 	}
-	sink := &objSink{}
+	// Below the delimiter codec a frame is read completely before it is handed on, so a rejected frame leaves the
+	// stream at the frame end: with a consuming exception handler the following frames must still decode.
+	sink := &objSink{Swallow: inject && isJSON && frameKind == fkDelimiter && e.P(2) == 1}
 	decPl := netty.NewPipeline()
 	for _, h := range mk() {
 		decPl.AddLast(h)
@@ -177,7 +183,11 @@ func runC16(e *Env) {
 		kind := 0
 		desc := "object " + clipS(string(body), 60)
 		if inject {
-			switch e.P(9) {
+			switch e.P(10) {
+			case 9:
+				body = append([]byte(`{"k":@`), bytes.Repeat([]byte{'x'}, []int{10, 600, 3000}[e.P(3)])...)
+				body = append(body, '}')
+				kind, desc = 1, fmt.Sprintf("malformed object of %d bytes with the syntax error near its start", len(body))
 			case 6:
 				body = append(body, '}')
 				kind, desc = 2, "object followed by a stray closing brace"
@@ -219,7 +229,7 @@ func runC16(e *Env) {
 	if isJSON {
 		codecName = fmt.Sprintf("json(useNumber=%v,disallowUnknown=%v)", useNumber, strict)
 	}
-	e.Describe("frame=%s codec=%s frames=%d injected-by-peer=%v read fragmentation=%d variable-length-carrier=%v", fkNames[frameKind], codecName, n, inject, dec.Conn.Frag, variable)
+	e.Describe("frame=%s codec=%s frames=%d injected-by-peer=%v read fragmentation=%d variable-length-carrier=%v exceptions-consumed=%v", fkNames[frameKind], codecName, n, inject, dec.Conn.Frag, variable, sink.Swallow)
 	for i, x := range exps {
 		e.Describe("frame %d: %s (expect %s)", i, x.Desc, []string{"delivery", "exception", "delivery or exception"}[x.Kind])
 	}
@@ -327,17 +337,26 @@ func runC16(e *Env) {
 				gi++
 			}
 		case 1:
-			// must raise; nothing may be delivered for it; the channel closes (unhandled exception), so nothing follows
+			// must raise; nothing may be delivered for it
 			if len(sink.Ex) == 0 {
 				e.Violate("malformed-raises", cls, "frame %d (%s) raised no exception (deliveries so far: %d)", i, x.Desc, len(sink.Got))
+				stopped = true
+				break
 			}
-			if len(sink.Got) > gi {
-				e.Violate("malformed-raises", cls+",delivered", "frame %d (%s) was delivered as %s", i, x.Desc, clipS(got, 80))
+			if !sink.Swallow {
+				// the channel closes (unhandled exception), so nothing follows
+				if len(sink.Got) > gi {
+					e.Violate("malformed-raises", cls+",delivered", "frame %d (%s) was delivered as %s", i, x.Desc, clipS(got, 80))
+				}
+				stopped = true
 			}
-			stopped = true
+			// with a consuming exception handler the channel stays open: the next expectations are matched against
+			// the following deliveries (a delivery for this frame would shift them and show up as a difference)
 		case 2:
 			if have && got == x.Canon {
 				gi++ // delivered the leading object: the rest of the frame must have been skipped (checked by what follows)
+			} else if sink.Swallow {
+				// rejected (allowed) and the channel stays open: whatever was delivered next belongs to the following frames
 			} else if have {
 				e.Violate("stream-position", cls, "after frame %d (%s) the decoder delivered %s: the stream position is not at the frame end", i, x.Desc, clipS(got, 80))
 				stopped = true
